@@ -309,7 +309,11 @@ def coq_eval(name, vtext, timeout=1800):
     os.makedirs(d, exist_ok=True)
     p = os.path.join(d, name + ".v")
     open(p, "w").write(vtext)
-    rc, o = sh("coqc -Q %s Osmo -w -notation-overridden %s" % (os.path.join(COQ, "theories"), p), cwd=d, timeout=timeout)
+    for attempt in range(3):
+        rc, o = sh("coqc -Q %s Osmo -w -notation-overridden %s" % (os.path.join(COQ, "theories"), p), cwd=d, timeout=timeout)
+        if rc in (0, 1):  # anything else (killed by the OOM killer, signal) is retried: not a verdict about the model
+            break
+        time.sleep(5 * (attempt + 1))
     for ext in (".vo", ".vok", ".vos", ".glob"):
         try:
             os.remove(os.path.join(d, name + ext))
